@@ -17,7 +17,8 @@ RULE = ("Hypothesis builds programs of 1-40 statements from 8-integer prototypes
         "exactly the current location (rejected, or nothing - the reported origin included - changes). A second search feeds "
         "the same kind of program through INCLUDE: a block of its label-free self-contained statements is spliced in "
         "two or three times from one file (side by side or through a wrapper file) and a stretch of the text is moved "
-        "into a further file; the walk judges the flat program. Oracle: independent layout "
+        "into a further file; the walk judges the flat program. Enumerated: EQU aliases of labels, and programs whose last byte is at $FFFF "
+        "followed by a labelled END / NAM / SETDP that five kinds of statement refer to (refused, or every byte reserved is emitted). Oracle: independent layout "
         "walk (address advances by the decoded instruction length or the data model's length; listing row address, "
         "listing hex column, image concatenation, symbol table = label addresses + EQU values, instruction meaning via "
         "the reference decoder). Non-trivial = >= 3 byte-emitting statements of >= 2 different sizes and a label "
@@ -152,8 +153,44 @@ def execute_alias(case):
     return ok(labels=labels, nontrivial=True)
 
 
+def top_cases():
+    """the last byte is at $FFFF and a labelled directive that emits nothing follows it: its label would be $10000.
+    The program may be refused; accepted, every statement that names the label still emits what it reserves"""
+    for use in ("LDX #FINISH", "FDB FINISH", "JMP FINISH", "LDA FINISH,X", "FDB 1,FINISH"):
+        for tail in ("END", "END START", "NAM DONE", "SETDP 0"):
+            for labelled in (True, False):
+                yield dict(top=dict(use=use, tail=tail, labelled=labelled))
+
+
+def execute_top(case):
+    t = case["top"]
+    size = {"LDX #FINISH": 3, "FDB FINISH": 2, "JMP FINISH": 3, "LDA FINISH,X": 4, "FDB 1,FINISH": 4}[t["use"]]
+    org = 0x10000 - size - 2
+    lines = [" ORG $%04X\n" % org, "START NOP \n", " %s\n" % t["use"], " NOP \n",
+             "%s %s\n" % ("FINISH" if t["labelled"] else "", t["tail"])] + ([] if t["labelled"] else ["FINISH EQU START\n"])
+    labels = ["top_of_memory_label"]
+    out = driver.assemble(lines)
+    if out.kind in ("CRASH", "HANG"):
+        return skip("crash/hang: judged by C13", labels=labels)
+    if out.kind == "DIAG":
+        if t["labelled"]:
+            return ok(labels=labels + ["rejected"], nontrivial=True)
+        return viol("valid program rejected ({}): {!r}".format(out.message, [l.strip() for l in lines]), fid="C02:top-rejected", labels=labels)
+    value = dict(out.symbols).get("FINISH")
+    if not isinstance(value, int):
+        return viol("accepted, but the symbol table has no value for FINISH ({!r}): {!r}".format(value, [l.strip() for l in lines]),
+                    fid="C02:top-symbol", labels=labels)
+    if len(out.image) != size + 2:
+        return viol("accepted, but the image has {} bytes where the statements reserve {}: {} {!r}".format(
+            len(out.image), size + 2, out.image.hex(), [l.strip() for l in lines]), fid="C02:top-image", labels=labels)
+    if out.image[1 + size - 2:1 + size] != bytes([value >> 8 & 0xFF, value & 0xFF]):
+        return viol("accepted, but '{}' does not encode FINISH = ${:04X}: {}".format(t["use"], value, out.image.hex()), fid="C02:top-value", labels=labels)
+    return ok(labels=labels, nontrivial=True)
+
+
 def enumerated(tier, seed):
     yield from alias_cases()
+    yield from top_cases()
     # the sizes of PC-relative statements decide every later address: re-use C03's distance families
     from checks import c03
     for i, case in enumerate(c03.enumerated("quick", seed)):
@@ -253,7 +290,7 @@ def apply_negative(case):
 
 
 def render(case):
-    if case.get("alias"):
+    if case.get("alias") or case.get("top"):
         return case
     if case.get("inc"):
         prog, files, main = with_includes(case)
@@ -265,6 +302,8 @@ def render(case):
 def execute(case):
     if case.get("alias"):
         return execute_alias(case)
+    if case.get("top"):
+        return execute_top(case)
     labels = []
     if case.get("inc"):
         prog, files, main = with_includes(case)
